@@ -306,6 +306,7 @@ def run(ctx):
         ends = [sum(sn[2][i] for sn in snaps) for i in range(len(efields))]
         return (nums, conf, ends)
 
+    agg_reqs, agg_impl = [], []
     for _ in range(40 if ctx.quick() else 400):
         grp = [rng.choice(homog) for _ in range(rng.randrange(0, 7))]
         cut = rng.randrange(0, len(grp) + 1)
@@ -340,10 +341,32 @@ def run(ctx):
             if len(grp) >= 2:
                 ctx.nontriv('aggregate')
             ctx.evaluations += 1
+            # the same table from the model (Summary.confusions / aggregateConfusions)
+            allids = ids_of(*[x for s, t in grp for x in (s, t)])
+            names = {}
+            for seq, idl in zip([x for s, t in grp for x in (s, t)], allids):
+                for sym, i in zip(seq, idl):
+                    names[i] = repr(sym)
+            agg_reqs.append(dict(p='C13', op='aggconf', s=[], t=[], refs=allids[0::2], hyps=allids[1::2]))
+            agg_impl.append((grp, got[1], names))
         except Exception as e:
             ctx.violation('aggregate-raises', 'aggregate raised %r' % (e,), dict(group=grp))
 
     # model vs implementation
+    if ctx.driver_ok and agg_reqs:
+        for r, (grp, table, names) in zip(common.Driver(ctx).batch(agg_reqs), agg_impl):
+            m = r.get('ok', r.get('err'))
+            if isinstance(m, list):
+                bag = {}
+                for h_, r_ in m:
+                    key = (repr(None) if r_ is None else names[r_], repr(None) if h_ is None else names[h_])
+                    bag[key] = bag.get(key, 0) + 1
+                m = bag
+            if m != table:
+                ctx.disagree('C13.aggconf model != implementation', dict(group=grp), sorted(map(str, table.items())),
+                             sorted(map(str, m.items())) if isinstance(m, dict) else m)
+            else:
+                ctx.traces_validated += 1
     if ctx.driver_ok:
         rep = common.Driver(ctx).batch(reqs)
         k = 0
